@@ -61,6 +61,6 @@ structure DStop (s : Nat) (st : Stream) (cl : Client) : Prop where
       st.sto.drained = true ∨ st.sto.disturbed = true ∨ (2 ≤ stage cl.pc s ∧ stage cl.pc s ≤ 4)
 
 def DStopP (s : Nat) (st : Stream) (cl : Client) : Prop :=
-  st.cam.emptyEvery = 0 → cl.misused = false → 0 < st.F → DStop s st cl
+  Here st → cl.misused = false → 0 < st.F → DStop s st cl
 
 end AcqVerif.Runtime
